@@ -557,4 +557,6 @@ Proof.
     rewrite m_sfind_spec by exact Ha. rewrite m_find_c_spec. destruct (find_first (P_chr c) a); reflexivity.
   - destruct H as (Ha & Hb). unfold cbytes in Ha. apply andb_true_iff in Ha. destruct Ha as (_ & Ha).
     rewrite m_sfindlast_spec by exact Ha. rewrite m_findlast_c_spec. destruct (find_last (P_chr c) a); reflexivity.
+  - reflexivity.
+  - reflexivity.
 Qed.
